@@ -1,7 +1,7 @@
 # Per-property configuration of bin/vcheck. One entry per claimed property.
 CHECKS = {}
 NOT_APPLICABLE = {}   # property id -> reason (only for properties that are not claimed)
-HOOK_COMMITS = ["591d0aa", "cd8c611", "81459e8", "b3ade5a", "5b8c4ec", "9b840f3", "69c0b79"]     # /repo commits that add build-tag-guarded hooks
+HOOK_COMMITS = ["591d0aa", "cd8c611", "81459e8", "b3ade5a", "5b8c4ec", "9b840f3", "69c0b79", "b31fb55"]     # /repo commits that add build-tag-guarded hooks
 MANIFEST_NOTES = ("Every check is `bin/vcheck <id> quick|thorough`; VERIF_SEED selects the seeded case lists. "
                   "Verdicts are three-valued (VIOLATION / held / INCONCLUSIVE); known findings are in known_findings.json.")
 
@@ -233,7 +233,7 @@ CHECKS["C14"] = {
 CHECKS["C05"] = {
     "pkg": "./c05", "run": "^TestC05$", "level": "fault_enumeration",
     "mem_gb": {"quick": 0, "thorough": 0},
-    "technique": "online trace monitors (apply agreement, in-order apply, durable-before-send, restart monotonicity and exact equality of the log a replica resumes from with the log its previous incarnation made durable, one leader per term, no fatal, bounded convergence) over every raft message (SimNet shim), every durable write (WAL wrapper) and every applied entry of in-process real servers under seeded loss/delay/duplication/partition/crash-restart schedules",
+    "technique": "online trace monitors (apply agreement, in-order apply, durable-before-send, restart monotonicity and exact equality of the log a replica resumes from with the log its previous incarnation made durable, one leader per term, no fatal, bounded convergence) over every raft message (SimNet shim), every durable write (WAL wrapper) and every applied entry of in-process real servers under seeded loss/delay/duplication/partition/crash-restart schedules; M8: every snapshot message of a Ready is followed, before the loop's next Ready, by a report of its outcome to raft",
     "level_text": "Real servers in one process with all raft traffic routed through a recording network shim and all log stores wrapped: seeded schedules of 6-10 phases (drop 0-30%, duplication, delays up to 80 ms against 50-100 ms election timeouts, minority and one-way partitions, immediate crashes and crashes armed at the k-th durable write, restarts) run against groups of 1, 3 and 5 replicas plus the zero group while 5 sequential clients write. Seven monitors judge every message against the sender's durable view at the instant it leaves, every applied entry, every Save and every restart; after faults stop all replicas must converge within 600 election timeouts of virtual ticks and hold exactly the acknowledged history. Every second scenario has a slow disk (one durable write in eight takes 1-15 ms), every third phase has sends that fail loudly, and every scenario with three or more replicas ends its fault phases with a forced history: one replica is cut off, the others compact, it returns with its ready-loop held up 40 ms per Ready over a link that fails half of the sends while the leader's loop is slow too. Every eighth scenario is a late-joiner history: the third replica joins an under-replicated partition after writes have happened and crashes before/after one of its partition group's first four durable writes (its catalogue snapshotted in between in half of them, so that the restart passes the member list), then restarts.",
     "level_note": "etcd/raft itself is trusted; schedules are sampled (only the crash boundary index is a systematic dimension); goroutine scheduling is not replayable, the witness is the recorded event tail.",
     "shards": {"quick": 8, "thorough": 16},
